@@ -88,7 +88,9 @@ contract(MU, "safe_update_file", props=["C06", "C16", "C17", "C05"],
     returns="ref:FileInfo", modifies=["ghost:fs"], fs_root="dataset_root_path",
     # net file-system effect: exactly the target becomes complete with `info`
     fs_effects=[("PJOIN(dataset_root_path, relative_path)", "info")],
-    requires=["SAFE(relative_path)"],
+    # relative, '..'-free, and naming a file (at least one component: for
+    # `.` the parent directory would lie outside the root)
+    requires=["SAFE(relative_path)", ("C17", "NPARTS(relative_path) >= 1")],
     ensures=[
         # the target is complete and holds exactly `info`; it never was partial
         ("C06", "dstate(PJOIN(dataset_root_path, relative_path)) == 2"),
